@@ -141,10 +141,16 @@ pub fn run_case(case: &Value, opts: &Opts, style_seed: Option<u64>) -> Value {
 
     // render
     let mut rng = style_seed.map(|sd| <rand::rngs::StdRng as rand::SeedableRng>::seed_from_u64(sd));
-    let texts: Vec<String> = mods
-        .iter()
-        .map(|m| render::module(m, &mut Style { rng: rng.as_mut() }))
-        .collect();
+    // a case may carry the concrete text of its (single) module as a token sequence of the language specification
+    // (spec/MC_Pipe.tla): the input record is then what the specification elaborates that text to
+    let texts: Vec<String> = if let Some(toks) = case.get("toks").and_then(|t| t.as_array()) {
+        let mut trng = <rand::rngs::StdRng as rand::SeedableRng>::seed_from_u64(style_seed.unwrap_or(1) ^ (id.as_i64().unwrap_or(0) as u64).wrapping_mul(0x9E37_79B9));
+        vec![crate::ptoks::render_encoded(toks, &mut trng)]
+    } else {
+        mods.iter()
+            .map(|m| render::module(m, &mut Style { rng: rng.as_mut() }))
+            .collect()
+    };
     if opts.keep_text {
         obs["texts"] = json!(texts);
     }
